@@ -26,11 +26,18 @@ fn flatten(stmts: &[Stmt], out: &mut Vec<Flat>) {
                     Arm::Line(n) => out.push(Flat::S(Stmt::Goto(*n))),
                     Arm::Stmts(v) => flatten(v, out),
                 }
-                // an ELSE with nothing behind it leaves nothing to skip
-                let else_ = match else_ {
-                    Some(Arm::Stmts(v)) if v.iter().all(|s| !has_code(s)) => &None,
-                    other => other,
-                };
+                // an ELSE with no code behind it leaves nothing to skip; what it holds (remarks,
+                // DATA) still belongs to the program
+                if let Some(Arm::Stmts(v)) = else_ {
+                    if v.iter().all(|s| !has_code(s)) {
+                        let at = out.len();
+                        if let Flat::If { else_at, .. } = &mut out[head] {
+                            *else_at = at;
+                        }
+                        flatten(v, out);
+                        continue;
+                    }
+                }
                 if let Some(e) = else_ {
                     let j = out.len();
                     out.push(Flat::Jump(0));
@@ -526,11 +533,16 @@ impl Machine {
                 _ => true,
             };
             if self.tron && coded {
-                if let Some(n) = here {
-                    if self.last_traced != Some(n) {
-                        self.last_traced = Some(n);
-                        self.emit(&format!("[{}]", n));
+                match here {
+                    Some(n) => {
+                        if self.last_traced != Some(n) {
+                            self.last_traced = Some(n);
+                            self.emit(&format!("[{}]", n));
+                        }
                     }
+                    // direct code is not a numbered line: coming back into a numbered line from
+                    // it is an entry, also into the line that was traced last
+                    None => self.last_traced = None,
                 }
             }
             if coded && pos.idx == 0 && pos.line.is_some() {
